@@ -4,8 +4,6 @@ from .. import common, roles, lemmas
 from ..roles import P_, param, INFO_TY, ENV_TY, AnchorMissing
 from ..mir import generic_path
 
-PAIRS = "I:halo_factory::state::PAIRS"
-TMP = "I:halo_factory::state::TMP_PAIR_INFO"
 
 
 def pairs_accesses(ctx):
@@ -13,7 +11,7 @@ def pairs_accesses(ctx):
     for fn in ctx.P.prod_fns():
         for writes in (True, False):
             for (b, op, item, v) in common.storage_sites(ctx.P, fn, writes=writes):
-                if item == PAIRS:
+                if item == ctx.N.PAIRS:
                     out.append((fn, b, op, v))
     return out
 
@@ -98,7 +96,7 @@ def analyse_key_fn(ctx, inst, kf):
         if c[0] == "call" and isinstance(c[3], str):
             g = generic_path(c[3])
             nm = common.last_seg(g)
-            if nm == "as_bytes" and "AssetInfoRaw" in g:
+            if ctx.N.is_fn(c[3], "raw_as_bytes"):
                 e = elem_of(c[4][0])
                 d = ("var", e)
             elif nm == "index" and "array" in g:
@@ -122,7 +120,7 @@ def analyse_key_fn(ctx, inst, kf):
                         x = x[2]
                     if x[0] == "call" and isinstance(x[3], str) and common.last_seg(x[3]) == "len":
                         y = x[4][0]
-                        if y[0] == "call" and isinstance(y[3], str) and common.last_seg(y[3]) == "as_bytes":
+                        if y[0] == "call" and ctx.N.is_fn(y[3], "raw_as_bytes"):
                             d = ("fixed", n, ("len", elem_of(y[4][0])))
                     if d is None:
                         d = ("fixed", n, ("other", ctx.show(src, 3)))
@@ -214,7 +212,7 @@ def analyse_key_fn(ctx, inst, kf):
                     out = set()
                     for x in common.walk(v):
                         if x[0] == "call" and isinstance(x[3], str) and x[4] and set(ctx.roots(x[4][0])) == {prm}:
-                            out.add(common.last_seg(x[3]))
+                            out.add("as_bytes" if ctx.N.is_fn(x[3], "raw_as_bytes") else common.last_seg(x[3]))
                     return out
                 ca, cb_ = callees_on(a, pa), callees_on(b_, pb)
                 # same expression over the two closure parameters
@@ -238,9 +236,12 @@ def analyse_key_fn(ctx, inst, kf):
 def to_raw_lemma(ctx, inst):
     """AssetInfo::to_raw preserves the identity of the asset."""
     P = ctx.P
-    f = lemmas.find_assoc(P, "haloswap::asset::AssetInfo", "to_raw")
+    try:
+        f = ctx.N.info_to_raw
+    except AnchorMissing as e:
+        f = None
     if f is None:
-        inst.fail("%s:to_raw:anchor" % inst.id, "-", "-", "anchor-missing: AssetInfo::to_raw")
+        inst.fail("%s:to_raw:anchor" % inst.id, "-", "-", "anchor-missing: AssetInfo -> AssetInfoRaw conversion")
         return None
     d = "discr(%s)" % P_(f, 0)
     good = set()
@@ -248,9 +249,9 @@ def to_raw_lemma(ctx, inst):
         if common.classify_ret_value(v) == "err":
             continue
         rs = "|".join(sorted(ctx.roots(v, (("v", "Ok"), ("f", 0)))))
-        if "%s in ['NativeToken']" % d in cs and rs == "A:haloswap::asset::AssetInfoRaw::NativeToken{denom=%s}" % P_(f, 0, "~NativeToken.denom"):
+        if "%s in ['NativeToken']" % d in cs and rs == "A:%s::NativeToken{denom=%s}" % (ctx.N.AssetInfoRaw, P_(f, 0, "~NativeToken.denom")):
             good.add("NativeToken")
-        elif "%s in ['Token']" % d in cs and rs == "A:haloswap::asset::AssetInfoRaw::Token{contract_addr=canon(%s)}" % P_(f, 0, "~Token.contract_addr"):
+        elif "%s in ['Token']" % d in cs and rs == "A:%s::Token{contract_addr=canon(%s)}" % (ctx.N.AssetInfoRaw, P_(f, 0, "~Token.contract_addr")):
             good.add("Token")
         else:
             inst.fail("%s:to_raw:region" % inst.id, f.path, common.span_of_block_term(f, b), "to_raw yields %s under {%s}" % (rs[:160], "; ".join(sorted(cs))))
@@ -286,14 +287,14 @@ def run(ctx):
     KEY = "C:%s@" % kf.path
 
     # ---- R1 ---------------------------------------------------------------------------------------------
-    infos_i = common.param_index_of_type(cp, r"^\[haloswap::asset::AssetInfo; 2\]$")
+    infos_i = common.param_index_of_type(cp, r"^\[%s; 2\]$" % ctx.N.rx("AssetInfo"))
     for fn, b, op, v in pairs_accesses(ctx):
         where = common.span_of_block_term(fn, b)
         if op in ("range", "keys", "range_raw", "keys_raw", "prefix"):
             r1.site("%s %s (scan)" % (where, op))
             continue
         kr = set(ctx.roots(v[4][2]))
-        if kr == {"load(%s).pair_key" % TMP}:
+        if kr == {"load(%s).%s" % (ctx.N.TMP, ctx.N.TMP_KEY_FIELD)}:
             r1.site("%s %s keyed by TMP_PAIR_INFO.pair_key" % (where, op))
             continue
         if len(kr) != 1 or not list(kr)[0].startswith(KEY):
@@ -303,11 +304,11 @@ def run(ctx):
         kc = [x for x in common.walk(v[4][2]) if x[0] == "call" and isinstance(x[3], str) and generic_path(x[3]) == kf.path]
         arg = kc[0][4][0]
         ar = "|".join(sorted(ctx.roots(arg)))
-        m = re.match(r"^A:array\[C:haloswap::asset::AssetInfo::to_raw@[^;]*;C:haloswap::asset::AssetInfo::to_raw@[^;]*\]$", ar)
+        m = re.match(r"^A:array\[C:%s@[^;]*;C:%s@[^;]*\]$" % (ctx.N.rx("info_to_raw"), ctx.N.rx("info_to_raw")), ar)
         if not m:
             r1.fail("C16.R1:key-arg:%s:%s" % (fn.path, op), fn.path, where, "key function applied to %s, expected [to_raw(a[0]), to_raw(a[1])]" % ar[:200])
             continue
-        trs = [x for x in common.walk(arg) if x[0] == "call" and isinstance(x[3], str) and generic_path(x[3]).endswith("AssetInfo::to_raw")]
+        trs = [x for x in common.walk(arg) if x[0] == "call" and ctx.N.is_fn(x[3], "info_to_raw")]
         srcs = sorted("|".join(sorted(ctx.roots(x[4][0]))) for x in trs)
         base = None
         if len(srcs) == 2 and srcs[0].endswith("[0]") and srcs[1].endswith("[1]") and srcs[0][:-3] == srcs[1][:-3]:
@@ -319,8 +320,8 @@ def run(ctx):
     # TMP.pair_key is written from the key function
     for fn in P.prod_fns():
         for (b, op, item, v) in common.storage_sites(P, fn, writes=True):
-            if item == TMP:
-                kr = set(ctx.roots(v[4][2], (("f", "pair_key"),)))
+            if item == ctx.N.TMP:
+                kr = set(ctx.roots(v[4][2], (("f", ctx.N.TMP_KEY_FIELD),)))
                 if len(kr) != 1 or not list(kr)[0].startswith(KEY):
                     r1.fail("C16.R1:tmp-key", fn.path, common.span_of_block_term(fn, b), "TMP_PAIR_INFO.pair_key ⊢ %s, expected the registry key function" % sorted(kr))
                 else:
@@ -345,11 +346,11 @@ def run(ctx):
         ok_eq = False
         if isinstance(callee, str):
             gp = generic_path(callee)
-            if gp.endswith("AssetInfo::equal"):
+            if ctx.N.equal(ctx.N.AssetInfo) is not None and gp == ctx.N.equal(ctx.N.AssetInfo).path:
                 lemmas.check_equal(ctx, r4)
                 ok_eq = True
-            elif re.search(r"<haloswap::asset::AssetInfo as (core|std)::cmp::PartialEq>::(eq|ne)$", gp):
-                impls = [i for i in P.impls if i.get("trait", "").endswith("cmp::PartialEq") and i["self"] == "haloswap::asset::AssetInfo"]
+            elif re.search(r"<%s as (core|std)::cmp::PartialEq>::(eq|ne)$" % ctx.N.rx("AssetInfo"), gp):
+                impls = [i for i in P.impls if i.get("trait", "").endswith("cmp::PartialEq") and i["self"] == ctx.N.AssetInfo]
                 ok_eq = len(impls) == 1 and impls[0]["derived"]
         if not ok_eq:
             r4.fail("C16.R4:same-asset-eq", cp.path, common.span_of_block_term(cp, g.b), "the same-asset test does not use the derived / verified equality of AssetInfo: unrecognised-idiom")
@@ -396,7 +397,10 @@ def run(ctx):
     # (covered: the Some edge leads to Err only; the None/Err edges continue)
 
     # ---- R5 decimals -------------------------------------------------------------------------------------------------------
-    qd = lemmas.find_assoc(P, "haloswap::asset::AssetInfo", "query_decimals")
+    try:
+        qd = ctx.N.query_decimals
+    except AnchorMissing:
+        qd = None
     if qd is None:
         r5.fail("C16.R5:anchor", "-", "-", "anchor-missing: AssetInfo::query_decimals")
     else:
@@ -407,15 +411,15 @@ def run(ctx):
             if common.classify_ret_value(v) == "err":
                 continue
             calls = [x for x in common.walk(v) if x[0] == "call" and isinstance(x[3], str) and roles.is_workspace_fn(P, x[3])]
-            names = {common.last_seg(x[3]) for x in calls}
+            names = {"query_native_decimals" if ctx.N.is_fn(x[3], "q_native_decimals") else generic_path(x[3]) for x in calls}
             if "%s in ['NativeToken']" % d in cs and names == {"query_native_decimals"}:
                 q = calls[0]
                 if set(ctx.roots(q[4][2])) == {P_(qd, 0, "~NativeToken.denom")} and set(ctx.roots(q[4][1])) == {P_(qd, 1)}:
                     seen.add("native")
             elif "%s in ['Token']" % d in cs:
                 rs = set(ctx.roots(v, (("v", "Ok"), ("f", 0))))
-                if len(rs) == 1 and re.match(r"^C:haloswap::querier::query_token_info@.*\.decimals$", list(rs)[0]):
-                    q = [x for x in common.walk(v) if x[0] == "call" and isinstance(x[3], str) and common.last_seg(x[3]) == "query_token_info"]
+                if len(rs) == 1 and re.match(r"^C:%s@.*\.decimals$" % ctx.N.rx("q_token_info"), list(rs)[0]):
+                    q = [x for x in common.walk(v) if x[0] == "call" and ctx.N.is_fn(x[3], "q_token_info")]
                     if q and set(ctx.roots(q[0][4][1])) == {P_(qd, 0, "~Token.contract_addr")}:
                         seen.add("token")
         if seen != {"native", "token"}:
@@ -452,14 +456,14 @@ def run(ctx):
             want = "A:array[%s;%s]" % (by_idx[0], by_idx[1])
             # into TMP and into the instantiate message
             for (b, op, item, v) in common.storage_sites(P, cp, writes=True):
-                if item == TMP:
+                if item == ctx.N.TMP:
                     got = "|".join(sorted(ctx.roots(v[4][2], (("f", "asset_decimals"),))))
                     if got != want:
                         r5.fail("C16.R5:tmp-decimals", cp.path, common.span_of_block_term(cp, b), "TMP.asset_decimals ⊢ %s, expected [decimals(asset0), decimals(asset1)]" % got[:200])
                     else:
                         r5.site("TMP.asset_decimals ⊢ [query_decimals(asset_infos[0]), query_decimals(asset_infos[1])]")
                     got_i = "|".join(sorted(ctx.roots(v[4][2], (("f", "asset_infos"),))))
-                    if not re.match(r"^A:array\[C:haloswap::asset::AssetInfo::to_raw@[^;]*;C:haloswap::asset::AssetInfo::to_raw@[^;]*\]$", got_i):
+                    if not re.match(r"^A:array\[C:%s@[^;]*;C:%s@[^;]*\]$" % (ctx.N.rx("info_to_raw"), ctx.N.rx("info_to_raw")), got_i):
                         r5.fail("C16.R5:tmp-infos", cp.path, common.span_of_block_term(cp, b), "TMP.asset_infos ⊢ %s" % got_i[:200])
             for (fn, b, i, adt, var, v, span) in common.message_sites(P):
                 if fn.path == cp.path and common.adt_short(adt) == "WasmMsg" and var == "Instantiate":
@@ -470,7 +474,7 @@ def run(ctx):
                         r5.site("pair InstantiateMsg carries the same decimals and the given assets")
 
     # ---- R6 reply ------------------------------------------------------------------------------------------------------------------
-    saves = [(b, v) for (b, op, item, v) in common.storage_sites(P, reply, writes=True) if item == PAIRS]
+    saves = [(b, v) for (b, op, item, v) in common.storage_sites(P, reply, writes=True) if item == ctx.N.PAIRS]
     if len(saves) != 1:
         r6.fail("C16.R6:save-count", reply.path, reply.span, "reply performs %d PAIRS writes, expected one" % len(saves))
     else:
@@ -486,12 +490,12 @@ def run(ctx):
         else:
             addr = m.group(1)
             r6.site("contract_addr ⊢ canonicalize(instantiate reply address)")
-        q = [x for x in common.walk(rec) if x[0] == "call" and isinstance(x[3], str) and common.last_seg(x[3]) == "query_pair_info_from_pair"]
+        q = [x for x in common.walk(rec) if x[0] == "call" and ctx.N.is_fn(x[3], "q_pair_info_from_pair")]
         qroot = None
         if not q or addr is None or set(ctx.roots(q[0][4][1])) != {addr}:
             r6.fail("C16.R6:self-description", reply.path, where, "the pair's self-description is not queried from the newly instantiated address")
         else:
-            qroot = "C:haloswap::querier::query_pair_info_from_pair@%s:bb%d" % (reply.path, q[0][2])
+            qroot = "C:%s@%s:bb%d" % (ctx.N.cpath("q_pair_info_from_pair"), reply.path, q[0][2])
             r6.site("pair self-description queried at the reply address")
         if qroot:
             checks = [("liquidity_token", "canon(%s.liquidity_token)" % qroot), ("requirements", "%s.requirements" % qroot)]
@@ -507,16 +511,16 @@ def run(ctx):
             else:
                 r6.site("commission_rate ⊢ pair's own commission_rate (via text round trip)")
         for name in ("asset_infos", "asset_decimals"):
-            if fr_(name) != "load(%s).%s" % (TMP, name):
+            if fr_(name) != "load(%s).%s" % (ctx.N.TMP, name):
                 r6.fail("C16.R6:%s" % name, reply.path, where, "registered %s ⊢ %s, expected TMP_PAIR_INFO.%s" % (name, fr_(name), name))
             else:
                 r6.site("%s ⊢ TMP_PAIR_INFO.%s" % (name, name))
     # pair instantiate stores the same-named message fields
     try:
         pi = roles.entry(P, "pair", "instantiate")
-        msg_i = common.param_index_of_type(pi, r"^haloswap::pair::InstantiateMsg$")
+        msg_i = common.param_index_of_type(pi, "^%s$" % re.escape(ctx.N.inst_msg("pair")))
         for (b, op, item, v) in common.storage_sites(P, pi, writes=True):
-            if item == "I:halo_pair::state::PAIR_INFO":
+            if item == ctx.N.PAIR_INFO:
                 rec = v[4][2]
                 for name, want in (("asset_decimals", P_(pi, msg_i, ".asset_decimals")), ("requirements", P_(pi, msg_i, ".requirements")),
                                    ("commission_rate", P_(pi, msg_i, ".commission_rate"))):
@@ -526,7 +530,7 @@ def run(ctx):
                     else:
                         r6.site("pair stores %s ⊢ InstantiateMsg.%s" % (name, name))
                 got = "|".join(sorted(ctx.roots(rec, (("f", "asset_infos"),))))
-                if not re.match(r"^A:array\[C:haloswap::asset::AssetInfo::to_raw@[^;]*;C:haloswap::asset::AssetInfo::to_raw@[^;]*\]$", got):
+                if not re.match(r"^A:array\[C:%s@[^;]*;C:%s@[^;]*\]$" % (ctx.N.rx("info_to_raw"), ctx.N.rx("info_to_raw")), got):
                     r6.fail("C16.R6:pair-instantiate:asset_infos", pi.path, common.span_of_block_term(pi, b), "pair stores asset_infos ⊢ %s" % got[:200])
     except AnchorMissing as e:
         r6.fail("C16.R6:pair-anchor", "-", "-", "anchor-missing: %s" % e)
